@@ -890,6 +890,11 @@ impl<'a> ProgGen<'a> {
                 Kind::Poly(_) => {
                     self.feature("polymorphic-definition");
                     let t = types[i].clone();
+                    // earlier non-recursive polymorphic functions of the group may be called, at
+                    // the type variables in scope (never itself or later ones: no cycles)
+                    for j in 0..n {
+                        self.ctx[base + j].usable = j < i && matches!(kinds[j], Kind::Poly(_));
+                    }
                     self.poly_body(&t)
                 }
             };
@@ -973,18 +978,41 @@ impl<'a> ProgGen<'a> {
     }
 
     fn from_params(&mut self, t: &GT, depth: usize) -> H {
+        // first attempt may call polymorphic functions in scope; if that leaves a goal nobody
+        // inhabits (rendered as `_`), fall back to parameters only
+        if depth >= 2 && self.r.chance(1, 2) {
+            let h = self.from_params_with(t, depth, true);
+            let mut holey = false;
+            crate::props::c08::walk(&h, &mut |x| holey |= matches!(x, H::Var(n) if n == "_"));
+            if !holey {
+                return h;
+            }
+        }
+        self.from_params_with(t, depth, false)
+    }
+
+    fn from_params_with(&mut self, t: &GT, depth: usize, poly_ok: bool) -> H {
         let c = self.candidates(t);
-        let local: Vec<(String, Vec<Arg>, bool)> = c.into_iter().filter(|x| !x.2 && x.1.iter().all(|a| matches!(a, Arg::Term(_)))).collect();
+        // parameters applied to terms; optionally also polymorphic functions in scope
+        // instantiated at types (type variables included)
+        let local: Vec<(String, Vec<Arg>, bool)> = c.into_iter().filter(|x| !x.2 && x.1.iter().all(|a| matches!(a, Arg::Term(_)) || (poly_ok && matches!(a, Arg::Type(_))))).collect();
         if local.is_empty() || depth == 0 {
             return self.leaf(t);
         }
-        // prefer candidates with arguments at depth > 1
-        let pick = &local[self.r.usize(local.len())];
+        let pick = local[self.r.usize(local.len())].clone();
         let mut h = H::Var(pick.0.clone());
         for a in &pick.1 {
-            if let Arg::Term(a) = a {
-                let arg = self.from_params(a, depth - 1);
-                h = H::App(hb(h), hb(arg));
+            match a {
+                Arg::Term(a) => {
+                    let arg = self.from_params_with(a, depth - 1, poly_ok);
+                    h = H::App(hb(h), hb(arg));
+                }
+                Arg::Type(ty) => {
+                    self.feature("polymorphic-call-at-type-variable");
+                    let arg = type_to_h(ty);
+                    h = H::App(hb(h), hb(arg));
+                }
+                Arg::DepIndex(..) => {}
             }
         }
         h
